@@ -262,6 +262,13 @@ def g_frames(R, tier):
     R.check("coverage/frame-obligations-collected", n > 0, f"{n} frame obligations; suites not built yet: {uncovered}")
 
 
+def g_hidden_state(R, tier):
+    hs = frames.hidden_state()
+    R.check("package/no-memoising-wrappers-or-bound-state", not hs,
+            "; ".join(f"{w}: {what}" for w, what in hs) or "every callable of the package is a plain function or class",
+            replay=dict(kind="history"))
+
+
 def g_preset(R, tier):
     """the module-level preset AST is shared by all conversions: it must be a closed,
     never-mutated term (its ids are in PREEXISTING, so any write is caught by frames/*);
@@ -286,7 +293,7 @@ def g_canary(R, tier):
     R.canary("canary/preexisting-set-nonempty", len(pre) > 50, f"{len(pre)} objects")
 
 
-GROUPS = {"config": g_config, "default_options": g_default_options, "ordering": g_ordering, "fresh_names": g_fresh_names,
+GROUPS = {"hidden_state": g_hidden_state, "config": g_config, "default_options": g_default_options, "ordering": g_ordering, "fresh_names": g_fresh_names,
           "frames": g_frames, "preset": g_preset, "canary": g_canary}
 
 
@@ -349,4 +356,29 @@ def replay_frame(rp):
     return dict(reproduced=False, note=f"write to {rp.get('where')}: see verifier output")
 
 
-REPLAY = {"leak": replay_leak, "illegal": replay_illegal, "hashseed": replay_hashseed, "rng": replay_rng, "frame": replay_frame}
+def replay_history(rp):
+    """same object, option changed between two conversions / helper-needing script first"""
+    code = (
+        "import oneliner, oneliner.config as C, random, re, subprocess, sys, json\n"
+        "norm=lambda t: re.sub(r'__ol_([a-z]+)_[a-z0-9]+', r'__ol_\\1_N', t)\n"
+        "src='def f(a):\\n    b=1\\n    c=2\\n    return a\\nx=1\\ny=2\\n'\n"
+        "loop='i=0\\nwhile i<2:\\n    i+=1\\nimport os\\nfor k in range(3):\\n    if k: break\\n'\n"
+        "cfg=C.Configs()\n"
+        "a=oneliner.convert_code_string(src, configs=cfg)\n"
+        "cfg.expr_wrapper='list'\n"
+        "b=oneliner.convert_code_string(src, configs=cfg)\n"
+        "fresh=C.Configs(); fresh.expr_wrapper='list'\n"
+        "b2=oneliner.convert_code_string(src, configs=fresh)\n"
+        "oneliner.convert_code_string(loop)\n"
+        "c1=oneliner.convert_code_string(src)\n"
+        "print(json.dumps([norm(b)==norm(b2), norm(c1)==norm(a)]))\n")
+    out, err = _fresh_process(code)
+    try:
+        import json as _j
+        ok = _j.loads(out.splitlines()[-1])
+    except Exception:  # noqa: BLE001
+        return dict(reproduced=False, observed=out, stderr=err)
+    return dict(reproduced=not all(ok), same_after_option_change=ok[0], same_after_other_conversion=ok[1], program=code)
+
+
+REPLAY = {"history": replay_history, "leak": replay_leak, "illegal": replay_illegal, "hashseed": replay_hashseed, "rng": replay_rng, "frame": replay_frame}
